@@ -58,6 +58,55 @@ fn walk_refs(v: &Y, at: &str, names: bool, out: &mut Vec<(String, String)>) {
     }
 }
 
+/// Structural rules of schema objects (a mapping with a string `type`, not a name map):
+/// an array has `items`; `required` lists distinct names of its own `properties`.
+fn walk_schemas(v: &Y, at: &str, names: bool, out: &mut Vec<Problem>) {
+    match v {
+        Y::Mapping(m) => {
+            if !names {
+                if let Some(t) = m.get("type").and_then(|t| t.as_str()) {
+                    if t == "array" && m.get("items").is_none() {
+                        out.push(Problem { class: "array schema without items".into(), detail: at.to_owned() });
+                    }
+                    if let Some(req) = m.get("required").and_then(|r| r.as_sequence()) {
+                        let names: Vec<String> = req.iter().map(|x| x.as_str().unwrap_or("<not a string>").to_owned()).collect();
+                        let mut d = names.clone();
+                        d.sort();
+                        d.dedup();
+                        if d.len() != names.len() {
+                            out.push(Problem { class: "required lists a name twice".into(), detail: format!("{at}: {names:?}") });
+                        }
+                        if t == "object" {
+                            let props: Vec<String> = m
+                                .get("properties")
+                                .and_then(|p| p.as_mapping())
+                                .map(|p| p.iter().map(|(k, _)| key_str(k)).collect())
+                                .unwrap_or_default();
+                            if let Some(n) = names.iter().find(|n| !props.contains(n)) {
+                                out.push(Problem { class: "required names a property the object does not have".into(), detail: format!("{at}: {n}") });
+                            }
+                        }
+                    }
+                }
+            }
+            for (k, x) in m.iter() {
+                let k = key_str(k);
+                if names {
+                    walk_schemas(x, &format!("{at}/{k}"), false, out);
+                } else if k != "example" && k != "examples" && k != "default" {
+                    walk_schemas(x, &format!("{at}/{k}"), NAME_MAPS.contains(&k.as_str()), out);
+                }
+            }
+        }
+        Y::Sequence(s) => {
+            for (i, x) in s.iter().enumerate() {
+                walk_schemas(x, &format!("{at}/{i}"), false, out);
+            }
+        }
+        _ => {}
+    }
+}
+
 fn resolve<'a>(doc: &'a Y, pointer: &str) -> Option<&'a Y> {
     let mut cur = doc;
     for seg in pointer.trim_start_matches("#/").split('/') {
@@ -126,11 +175,40 @@ pub fn validate(doc: &Y, explicit_ids: &[String]) -> Vec<Problem> {
         }
     }
 
+    // 1b. schema objects
+    walk_schemas(doc, "", false, &mut probs);
+
     // 2-4. paths
     let mut ids: BTreeMap<String, Vec<(String, String)>> = BTreeMap::new();
     if let Some(paths) = doc.get("paths").and_then(|p| p.as_mapping()) {
         for (k, item) in paths.iter() {
             let key = key_str(k);
+            if !key.starts_with('/') {
+                probs.push(Problem { class: "path does not start with /".into(), detail: key.clone() });
+            }
+            for m in METHODS {
+                if let Some(op) = item.get(m) {
+                    if op.get("responses").and_then(|r| r.as_mapping()).map_or(true, |r| r.is_empty()) {
+                        probs.push(Problem { class: "operation without responses".into(), detail: format!("{m} {key}") });
+                    }
+                }
+            }
+            {
+                let mut lists: Vec<Option<&Y>> = vec![item.get("parameters")];
+                for m in METHODS {
+                    lists.push(item.get(m).and_then(|op| op.get("parameters")));
+                }
+                for p in lists.into_iter().flatten().filter_map(|l| l.as_sequence()).flatten() {
+                    if p.get("$ref").is_some() {
+                        continue;
+                    }
+                    let name = p.get("name").and_then(|n| n.as_str()).unwrap_or("");
+                    let place = p.get("in").and_then(|n| n.as_str()).unwrap_or("");
+                    if name.is_empty() || !["query", "header", "path", "cookie"].contains(&place) || (p.get("schema").is_none() && p.get("content").is_none()) {
+                        probs.push(Problem { class: "malformed parameter".into(), detail: format!("{key}: name {name:?} in {place:?}") });
+                    }
+                }
+            }
             let mut vars = template_vars(&key);
             let distinct = {
                 let mut v = vars.clone();
